@@ -23,6 +23,7 @@ package resolver
 import (
 	"context"
 	"encoding/json"
+	"errors"
 	"fmt"
 	"net/url"
 	"sort"
@@ -40,6 +41,7 @@ import (
 	"google.golang.org/grpc/internal/xds/balancer/clustermanager"
 	"google.golang.org/grpc/internal/xds/bootstrap"
 	"google.golang.org/grpc/internal/xds/clients/lrsclient"
+	"google.golang.org/grpc/internal/xds/clusterspecifier"
 	gxdsclient "google.golang.org/grpc/internal/xds/clients/xdsclient"
 	"google.golang.org/grpc/internal/xds/httpfilter"
 	rinternal "google.golang.org/grpc/internal/xds/resolver/internal"
@@ -231,15 +233,53 @@ func (cc *c51CC) UpdateState(s resolver.State) error {
 	if err != nil {
 		w.failLocked("bad-service-config", "pushed service config %s: %v", js, err)
 	}
-	w.pushes = append(w.pushes, c51Push{children: children, sel: iresolver.GetConfigSelector(s)})
+	sel := iresolver.GetConfigSelector(s)
+	w.pushes = append(w.pushes, c51Push{children: children, sel: sel})
 	// (S) at the moment of every push: every selected-but-uncommitted RPC's
-	// cluster is a child of the pushed configuration
-	for _, rpc := range w.rpcs {
-		if !c51Has(children, rpc.cluster) {
-			w.failLocked("cluster-dropped-while-rpc-uncommitted", "service config pushed with children %v while RPC #%d routed to %s is selected and not yet committed", children, rpc.id, rpc.cluster)
+	// cluster is a child of the pushed configuration (suspended while the
+	// Listener/RouteConfiguration resource is in error: see the assumptions)
+	if !w.errState {
+		for _, rpc := range w.rpcs {
+			if !c51Has(children, rpc.cluster) {
+				w.failLocked("cluster-dropped-while-rpc-uncommitted", "service config pushed with children %v while RPC #%d routed to %s is selected and not yet committed", children, rpc.id, rpc.cluster)
+			}
+		}
+	}
+	// (B) the selector delivered WITH this update routes only to children of
+	// THIS update's service config
+	kind, targets := c51SelectorTargets(sel)
+	for _, tg := range targets {
+		if !c51Has(children, tg) {
+			w.failLocked("selector-routes-outside-its-service-config", "update pushed with service config children %v and a config selector (%s) that routes RPCs to %s, which is not in that configuration", children, kind, tg)
 		}
 	}
 	return nil
+}
+
+// c51SelectorTargets reads (in-package, without calling SelectConfig, which
+// would take references) where a pushed config selector can send RPCs: kind is
+// "none" (no selector: the channel fails RPCs), "erroring", or "routes" with
+// the sorted set of cluster_manager child names its routes point at.
+func c51SelectorTargets(sel iresolver.ConfigSelector) (kind string, targets []string) {
+	switch cs := sel.(type) {
+	case nil:
+		return "none", nil
+	case *erroringConfigSelector:
+		return "erroring", nil
+	case *configSelector:
+		seen := map[string]bool{}
+		for _, rt := range cs.routes {
+			for _, rc := range rt.routeClusters {
+				if n := rc.Value().name; !seen[n] {
+					seen[n] = true
+					targets = append(targets, n)
+				}
+			}
+		}
+		sort.Strings(targets)
+		return "routes", targets
+	}
+	return fmt.Sprintf("%T", sel), nil
 }
 func (cc *c51CC) ReportError(err error) {
 	cc.w.mu.Lock()
@@ -272,8 +312,16 @@ type c51World struct {
 	client   *c51Client
 	r        *xdsResolver
 	cc       *c51CC
-	routes   []string  // ledger: SET of clusters named by the route configuration delivered last (nil before the first)
+	routes   []string  // ledger: SET of cluster_manager child names ("cluster:A", "cluster_specifier_plugin:pA") named by the route configuration delivered last (nil before the first)
 	routeName string   // which route configuration that was (several name the same cluster set)
+	table    []c51Route // ledger: the routes of that configuration
+	errState bool       // ledger: the last management-server event was a resource error (resource removed)
+	// zeroSeen: clusterInfo objects that were observed at a quiescent point with
+	// refCount 0 while still in activeClusters/activePlugins. Such an entry has
+	// already called its unsubscribe (a OnceFunc); whether a live entry is such a
+	// re-used one is hidden state that later behaviour depends on, so it is part
+	// of the state key.
+	zeroSeen map[*clusterInfo]bool
 	haveCfg  bool
 	rpcs     []*c51RPC // ledger: selected, not yet committed (selection order)
 	nextID   int
@@ -322,26 +370,49 @@ func (w *c51World) close() {
 }
 
 // c51Route is one route of the scripted route configuration: RPCs whose method
-// starts with Prefix go to the weighted clusters listed (all weight 1; a
+// starts with Prefix go either to the weighted clusters listed (all weight 1; a
 // cluster may be listed more than once, and several routes may name the same
-// cluster).
+// cluster) or, if Plugin is set, to that cluster specifier plugin.
 type c51Route struct {
 	Prefix   string
 	Clusters []string
+	Plugin   string
 }
 
-// deliver sends a Listener resource whose inline route configuration routes
-// /X/... to cluster X, for the clusters in set (one route per cluster).
+// children: the cluster_manager child names this route can send RPCs to.
+func (rt c51Route) children() []string {
+	if rt.Plugin != "" {
+		return []string{clusterSpecifierPluginPrefix + rt.Plugin}
+	}
+	var out []string
+	for _, c := range rt.Clusters {
+		out = append(out, clusterPrefix+c)
+	}
+	return out
+}
+
+// c51RouteFor: the one-route-per-target convention: target "A" is plain
+// cluster A reached by /A/..., target "pA" is cluster specifier plugin pA
+// reached by /pA/... (names starting with 'p' are plugins).
+func c51RouteFor(target string) c51Route {
+	if strings.HasPrefix(target, "p") {
+		return c51Route{Prefix: "/" + target + "/", Plugin: target}
+	}
+	return c51Route{Prefix: "/" + target + "/", Clusters: []string{target}}
+}
+
+// deliver sends a Listener resource whose inline route configuration has one
+// route per target of set.
 func (w *c51World) deliver(set []string) {
 	var routes []c51Route
 	for _, c := range set {
-		routes = append(routes, c51Route{Prefix: "/" + c + "/", Clusters: []string{c}})
+		routes = append(routes, c51RouteFor(c))
 	}
 	w.deliverRoutes(fmt.Sprint(set), routes)
 }
 
 // deliverRoutes sends a Listener resource with the given inline routes. The
-// ledger keeps the SET of clusters the route configuration names.
+// ledger keeps the route table and the SET of children it names.
 func (w *c51World) deliverRoutes(name string, routes []c51Route) {
 	lw := w.client.listenerWatcher()
 	if lw == nil {
@@ -349,31 +420,73 @@ func (w *c51World) deliverRoutes(name string, routes []c51Route) {
 		return
 	}
 	vh := &xdsresource.VirtualHost{Domains: []string{"*"}}
+	rcu := &xdsresource.RouteConfigUpdate{VirtualHosts: []*xdsresource.VirtualHost{vh}}
 	seen := map[string]bool{}
 	set := []string{}
 	for _, rt := range routes {
 		prefix := rt.Prefix
 		xr := &xdsresource.Route{Prefix: &prefix, ActionType: xdsresource.RouteActionRoute}
+		if rt.Plugin != "" {
+			xr.ClusterSpecifierPlugin = rt.Plugin
+			if rcu.ClusterSpecifierPlugins == nil {
+				rcu.ClusterSpecifierPlugins = map[string]clusterspecifier.BalancerConfig{}
+			}
+			// what a (stub) plugin's ParseClusterSpecifierConfig would have produced
+			rcu.ClusterSpecifierPlugins[rt.Plugin] = clusterspecifier.BalancerConfig{{"verif_csp_stub": map[string]any{"plugin": rt.Plugin}}}
+		}
 		for _, c := range rt.Clusters {
 			xr.WeightedClusters = append(xr.WeightedClusters, xdsresource.WeightedCluster{Name: c, Weight: 1})
-			if !seen[c] {
-				seen[c] = true
-				set = append(set, c)
+		}
+		for _, ch := range rt.children() {
+			if !seen[ch] {
+				seen[ch] = true
+				set = append(set, ch)
 			}
 		}
 		vh.Routes = append(vh.Routes, xr)
 	}
 	sort.Strings(set)
 	lu := xdsresource.ListenerUpdate{APIListener: &xdsresource.HTTPConnectionManagerConfig{
-		InlineRouteConfig: &xdsresource.RouteConfigUpdate{VirtualHosts: []*xdsresource.VirtualHost{vh}},
+		InlineRouteConfig: rcu,
 		HTTPFilters:       []xdsresource.HTTPFilter{{Name: "verif", Filter: c51Filter{w}}},
 	}}
 	w.mu.Lock()
 	w.routes = set
+	w.table = append([]c51Route(nil), routes...)
 	w.routeName = name
 	w.haveCfg = true
+	w.errState = false
 	w.mu.Unlock()
 	lw.ResourceChanged(&xdsresource.ListenerResourceData{Resource: lu}, func() {})
+}
+
+// resourceError: the management server removes the Listener resource
+// (resource-not-found); the dependency manager reports it to the resolver.
+func (w *c51World) resourceError() {
+	lw := w.client.listenerWatcher()
+	if lw == nil {
+		w.fail("harness", "no listener watch")
+		return
+	}
+	w.mu.Lock()
+	w.routes = nil
+	w.table = nil
+	w.routeName = "resource-error"
+	w.haveCfg = true
+	w.errState = true
+	w.mu.Unlock()
+	lw.ResourceError(errors.New("verif: listener resource removed"), func() {})
+}
+
+// expect: where the ledger's route table sends an RPC with this method (first
+// matching prefix; the scripted weighted picker takes the first listed cluster).
+func (w *c51World) expect(method string) (child string, ok bool) {
+	for _, rt := range w.table {
+		if strings.HasPrefix(method, rt.Prefix) {
+			return rt.children()[0], true
+		}
+	}
+	return "", false
 }
 
 func (w *c51World) lastPush() *c51Push {
@@ -396,8 +509,25 @@ func (w *c51World) npushes() int {
 // harness goroutine after synctest.Wait, nothing else is running).
 func (w *c51World) refs() string {
 	var parts []string
+	one := func(name string, ci *clusterInfo) {
+		n := ci.refCount.Load()
+		if n == 0 {
+			if w.zeroSeen == nil {
+				w.zeroSeen = map[*clusterInfo]bool{}
+			}
+			w.zeroSeen[ci] = true
+			parts = append(parts, fmt.Sprintf("%s=0", name))
+		} else if w.zeroSeen[ci] {
+			parts = append(parts, fmt.Sprintf("%s=%d(entry re-used after its count had reached 0)", name, n))
+		} else {
+			parts = append(parts, fmt.Sprintf("%s=%d", name, n))
+		}
+	}
 	for name, ci := range w.r.activeClusters {
-		parts = append(parts, fmt.Sprintf("%s=%d", name, ci.refCount.Load()))
+		one(name, ci)
+	}
+	for name, ci := range w.r.activePlugins {
+		one(name, ci)
 	}
 	sort.Strings(parts)
 	return strings.Join(parts, ",")
@@ -405,29 +535,57 @@ func (w *c51World) refs() string {
 
 type c51Op struct {
 	name    string
-	kind    string // select commit update advance
+	kind    string // select commit update error advance
 	cluster string
 	idx     int
 	set     []string
 	routes  []c51Route // non-nil: delivered instead of one route per cluster of set
 }
 
-func c51Ops() []c51Op {
-	return []c51Op{
-		{name: "select(/A)", kind: "select", cluster: "A"},
-		{name: "select(/B)", kind: "select", cluster: "B"},
+// c51Ops: scenario "clusters" = plain-cluster routes (incl. multiply referenced
+// clusters); scenario "plugins" = cluster-specifier-plugin routes mixed with one
+// plain cluster. Both have the resource-error event.
+func c51Ops(scenario string) []c51Op {
+	commits := []c51Op{
 		{name: "commit(0)x2", kind: "commit", idx: 0},
 		{name: "commit(1)x2", kind: "commit", idx: 1},
 		{name: "commit(2)x2", kind: "commit", idx: 2},
-		{name: "routes{A}", kind: "update", set: []string{"A"}},
-		{name: "routes{B}", kind: "update", set: []string{"B"}},
-		{name: "routes{A,B}", kind: "update", set: []string{"A", "B"}},
-		{name: "routes{}", kind: "update", set: []string{}},
-		// the same cluster referenced more than once by one route configuration
-		{name: "routes{A,A2->A}", kind: "update", routes: []c51Route{{"/A/", []string{"A"}}, {"/A2/", []string{"A"}}}},
-		{name: "routes{A->[A,A],B}", kind: "update", routes: []c51Route{{"/A/", []string{"A", "A"}}, {"/B/", []string{"B"}}}},
-		{name: "advance(1m)", kind: "advance"},
 	}
+	var ops []c51Op
+	if scenario == "plugins" {
+		ops = []c51Op{
+			{name: "select(/pA)", kind: "select", cluster: "pA"},
+			{name: "select(/pB)", kind: "select", cluster: "pB"},
+			{name: "select(/A)", kind: "select", cluster: "A"},
+		}
+		ops = append(ops, commits...)
+		ops = append(ops,
+			c51Op{name: "routes{pA}", kind: "update", set: []string{"pA"}},
+			c51Op{name: "routes{pB}", kind: "update", set: []string{"pB"}},
+			c51Op{name: "routes{pA,pB}", kind: "update", set: []string{"pA", "pB"}},
+			c51Op{name: "routes{A}", kind: "update", set: []string{"A"}},
+			c51Op{name: "routes{}", kind: "update", set: []string{}},
+			c51Op{name: "resource-error", kind: "error"},
+		)
+		return ops
+	}
+	ops = []c51Op{
+		{name: "select(/A)", kind: "select", cluster: "A"},
+		{name: "select(/B)", kind: "select", cluster: "B"},
+	}
+	ops = append(ops, commits...)
+	ops = append(ops,
+		c51Op{name: "routes{A}", kind: "update", set: []string{"A"}},
+		c51Op{name: "routes{B}", kind: "update", set: []string{"B"}},
+		c51Op{name: "routes{A,B}", kind: "update", set: []string{"A", "B"}},
+		c51Op{name: "routes{}", kind: "update", set: []string{}},
+		// the same cluster referenced more than once by one route configuration
+		c51Op{name: "routes{A,A2->A}", kind: "update", routes: []c51Route{{Prefix: "/A/", Clusters: []string{"A"}}, {Prefix: "/A2/", Clusters: []string{"A"}}}},
+		c51Op{name: "routes{A->[A,A],B}", kind: "update", routes: []c51Route{{Prefix: "/A/", Clusters: []string{"A", "A"}}, {Prefix: "/B/", Clusters: []string{"B"}}}},
+		c51Op{name: "resource-error", kind: "error"},
+		c51Op{name: "advance(1m)", kind: "advance"},
+	)
+	return ops
 }
 
 const c51MaxInFlight = 3
@@ -461,23 +619,43 @@ func (w *c51World) apply(op c51Op) (applicable bool) {
 		}
 		w.client.pump()
 		w.obs = "route configuration update"
-	case "select":
-		p := w.lastPush()
-		if p == nil || p.sel == nil || len(w.rpcs) >= c51MaxInFlight {
+	case "error":
+		if !w.haveCfg || w.errState {
 			return false
 		}
-		cfg, err := p.sel.SelectConfig(iresolver.RPCInfo{Context: context.Background(), Method: "/" + op.cluster + "/m"})
-		routed := c51Has(w.routes, op.cluster)
+		w.resourceError()
+		w.client.pump()
+		w.obs = "resource error"
+	case "select":
+		p := w.lastPush()
+		if p == nil || len(w.rpcs) >= c51MaxInFlight {
+			return false
+		}
+		if p.sel == nil {
+			// update without a config selector (resource error): the channel has
+			// no route for new RPCs and fails them
+			if !w.errState {
+				w.fail("no-selector", "%s: the latest update carries no config selector although a route configuration is in force", op.name)
+			}
+			w.obs = "select: channel in error state, RPC fails"
+			break
+		}
+		method := "/" + op.cluster + "/m"
+		cfg, err := p.sel.SelectConfig(iresolver.RPCInfo{Context: context.Background(), Method: method})
+		want, routed := w.expect(method)
 		if err != nil {
 			if routed {
-				w.fail("select-failed", "%s: SelectConfig failed although the current route configuration routes it: %v", op.name, err)
+				w.fail("select-failed", "%s: SelectConfig failed although the current route configuration routes it to %s: %v", op.name, want, err)
 			}
 			w.obs = "select: no route, RPC fails"
 			break
 		}
 		got := clustermanager.PickedCluster(cfg.Context)
-		if !routed || got != "cluster:"+op.cluster {
-			w.fail("select-wrong-cluster", "%s: routed to %q; route configuration clusters %v", op.name, got, w.routes)
+		if !routed || got != want {
+			w.fail("select-wrong-cluster", "%s: the config selector of the latest update routed the RPC to %q; the current route configuration (%s) sends it to %q (routed=%v)", op.name, got, w.routeName, want, routed)
+		}
+		if !c51Has(p.children, got) {
+			w.fail("rpc-routed-to-cluster-not-in-config", "%s: RPC routed to %q, which is not a child of the service config delivered with that selector (%v)", op.name, got, p.children)
 		}
 		rpc := &c51RPC{cluster: got, cfg: cfg, sel: p.sel}
 		if il, ok := cfg.Interceptor.(*interceptorList); ok && len(il.interceptors) == 1 {
@@ -503,7 +681,7 @@ func (w *c51World) apply(op c51Op) (applicable bool) {
 		w.mu.Lock()
 		rpc := w.rpcs[op.idx]
 		w.rpcs = append(append([]*c51RPC(nil), w.rpcs[:op.idx]...), w.rpcs[op.idx+1:]...)
-		stillUsed := c51Has(w.routes, strings.TrimPrefix(rpc.cluster, "cluster:"))
+		stillUsed := c51Has(w.routes, rpc.cluster)
 		for _, o := range w.rpcs {
 			if o.cluster == rpc.cluster {
 				stillUsed = true
@@ -549,10 +727,15 @@ func (w *c51World) quiescentState() string {
 	} else {
 		fmt.Fprintf(&sb, "routes=%s%v", w.routeName, w.routes)
 	}
+	if w.errState {
+		sb.WriteString(" ERROR-STATE")
+	}
 	var cur iresolver.ConfigSelector
 	if n := len(w.pushes); n > 0 {
 		fmt.Fprintf(&sb, " children=%v", w.pushes[n-1].children)
 		cur = w.pushes[n-1].sel
+		kind, targets := c51SelectorTargets(cur)
+		fmt.Fprintf(&sb, " selector=%s%v", kind, targets)
 	} else {
 		sb.WriteString(" children=<no push>")
 	}
@@ -598,12 +781,42 @@ func (w *c51World) check(after string) {
 		}
 		return
 	}
-	children := w.pushes[len(w.pushes)-1].children
+	last := w.pushes[len(w.pushes)-1]
+	children := last.children
+	active := map[string]*clusterInfo{}
+	for name, ci := range w.r.activeClusters {
+		active[name] = ci
+	}
+	for name, ci := range w.r.activePlugins {
+		active[name] = ci
+	}
+	w.refs() // records entries currently at count 0 (zeroSeen)
+	// (B) the latest update's selector belongs to the latest route
+	// configuration and routes only into that update's service config
+	kind, targets := c51SelectorTargets(last.sel)
+	if w.errState {
+		if kind == "routes" {
+			w.failLocked("stale-selector", "after %s: the resource is in error (removed) but the latest update carries a routing config selector (targets %v)", after, targets)
+		}
+	} else if kind != "routes" || fmt.Sprint(targets) != fmt.Sprint(w.routes) {
+		w.failLocked("stale-selector", "after %s: the latest update carries config selector %s%v; the latest route configuration (%s) routes to %v", after, kind, targets, w.routeName, w.routes)
+	}
+	for _, tg := range targets {
+		if !c51Has(children, tg) {
+			w.failLocked("selector-routes-outside-its-service-config", "after %s: the latest update has service config children %v and a config selector that routes RPCs to %s", after, children, tg)
+		}
+	}
 	need := map[string]string{}
 	for _, c := range w.routes {
-		need["cluster:"+c] = "named by the current route configuration"
+		need[c] = "named by the current route configuration"
 	}
 	for _, rpc := range w.rpcs {
+		if w.errState {
+			// resource removed: the channel is deliberately given an empty
+			// configuration at once (see the assumptions); nothing is required
+			need[rpc.cluster] = ""
+			continue
+		}
 		// (S) at quiescence
 		if !c51Has(children, rpc.cluster) {
 			w.failLocked("cluster-dropped-while-rpc-uncommitted", "after %s: latest service config has children %v while RPC #%d routed to %s is selected and not yet committed", after, children, rpc.id, rpc.cluster)
@@ -615,33 +828,39 @@ func (w *c51World) check(after string) {
 		need[rpc.cluster] = fmt.Sprintf("RPC #%d uncommitted", rpc.id)
 	}
 	for c, why := range need {
-		if !c51Has(children, c) {
+		if why != "" && !c51Has(children, c) {
 			w.failLocked("needed-cluster-missing", "after %s: latest service config has children %v, missing %s (%s)", after, children, c, why)
 		}
 	}
 	// (D) removed and no longer referenced => dropped
 	for _, c := range children {
 		if _, ok := need[c]; !ok {
-			w.failLocked("removed-cluster-not-dropped", "after %s: latest service config still has child %s although the route configuration (%v) does not name it and no uncommitted RPC is routed to it (in flight: %d)", after, c, w.routes, len(w.rpcs))
+			key := "removed-cluster-not-dropped"
+			if ci := active[c]; ci != nil && w.zeroSeen[ci] {
+				// same clause, own class: the undropped child is an entry that
+				// was re-used after its count had reached 0 (see zeroSeen)
+				key = "removed-cluster-not-dropped/entry-reused-after-zero"
+			}
+			w.failLocked(key, "after %s: latest service config still has child %s although the route configuration (%v) does not name it and no uncommitted RPC is routed to it (in flight: %d)", after, c, w.routes, len(w.rpcs))
 		}
 	}
 	// reference-count ledger: the current config selector holds one reference,
 	// each uncommitted RPC one more
 	want := map[string]int32{}
 	for _, c := range w.routes {
-		want["cluster:"+c]++
+		want[c]++
 	}
 	for _, rpc := range w.rpcs {
 		want[rpc.cluster]++
 	}
-	for name, ci := range w.r.activeClusters {
+	for name, ci := range active {
 		if got := ci.refCount.Load(); got != want[name] {
 			w.failLocked("refcount-ledger", "after %s: clusterInfo.refCount[%s]=%d, ledger (1 for the current config selector + 1 per uncommitted RPC) = %d", after, name, got, want[name])
 		}
 	}
 	for name, n := range want {
-		if _, ok := w.r.activeClusters[name]; !ok && n > 0 {
-			w.failLocked("refcount-ledger", "after %s: %s has %d references in the ledger but is not in activeClusters", after, name, n)
+		if _, ok := active[name]; !ok && n > 0 {
+			w.failLocked("refcount-ledger", "after %s: %s has %d references in the ledger but is not in activeClusters/activePlugins", after, name, n)
 		}
 	}
 }
@@ -686,9 +905,10 @@ func TestVerif_C51_XDSResolver(t *testing.T) {
 	const P = c51P
 	r := vk.Start(t, "c51_xdsresolver", "model_checking", P)
 	defer r.Finish()
-	r.Rule(P, "breadth-first over ALL event histories up to the depth bound, each applied to a fresh real xDS resolver (production Build, real dependency manager) inside a synctest bubble, run to quiescence after every event. Events: route configuration update to clusters {A} | {B} | {A,B} | {} (one prefix route /X/ per cluster) | two routes /A/ and /A2/ both to cluster A | a route /A/ whose weighted clusters list A twice plus /B/ -> B (delivered as a Listener resource with inline routes; Cluster and Endpoints watches are answered), select an RPC on /A or /B through the config selector most recently pushed to the channel (at most 3 uncommitted RPCs), commit the i-th uncommitted RPC by calling its OnCommitted hook TWICE, advance time 1 minute. Checked at every service-config push and at every quiescent point against a ledger of uncommitted RPCs. A state = ledger + children of the latest pushed config + private clusterInfo.refCount values + per-RPC config-selector generation and interceptor liveness; distinct states are the non-trivial cases")
-	r.Assume(P, "events are serialized (one at a time, run to quiescence): the interleavings of SelectConfig, OnCommitted and updates inside the resolver are not explored by this leg; RPCs are selected through the config selector of the latest push (the channel swaps selectors before the resolver stops the old one)")
-	r.Assume(P, "scripted: xDS client (decoded Listener/Cluster/Endpoints resources delivered directly to the dependency manager's watchers; every cluster resolves) the weighted-cluster picker (seam rinternal.NewWRR: always the first listed cluster) and the channel (recording ClientConn; the cluster_manager LB policy and the real channel's commit logic in stream.go are not running). Listener/route resource-not-found errors (erroring config selector, empty service config) and cluster specifier plugins are out of scope")
+	r.Rule(P, "breadth-first over ALL event histories up to the depth bound, each applied to a fresh real xDS resolver (production Build, real dependency manager) inside a synctest bubble, run to quiescence after every event. Two alphabets. 'clusters': route configuration update to plain clusters {A} | {B} | {A,B} | {} (one prefix route /X/ per cluster) | two routes /A/ and /A2/ both to cluster A | a route /A/ whose weighted clusters list A twice plus /B/ -> B; select an RPC on /A or /B; 'plugins': route configuration update to cluster-specifier-plugin routes {pA} | {pB} | {pA,pB}, to plain cluster {A}, to {}; select an RPC on /pA, /pB or /A. Both: Listener resource error (resource removed), commit the i-th uncommitted RPC by calling its OnCommitted hook TWICE (at most 3 uncommitted RPCs); RPCs are selected through the config selector delivered with the latest update. Checked at EVERY update the channel receives (service config + config selector pair) and at every quiescent point against a ledger (route table delivered last, uncommitted RPCs): (a) every uncommitted RPC's cluster/plugin is a child of the pushed config and at quiescence the children are exactly route targets + targets of uncommitted RPCs; (b) the selector delivered with an update routes only to children of that update's config, and at quiescence it is the selector of the latest route configuration (none/erroring after a resource error) and routes every selected RPC as that route table says; (c) clusterInfo.refCount (clusters and plugins) == 1 per current selector + 1 per uncommitted RPC; second call of a commit hook changes nothing. A state = ledger + children and selector targets of the latest update + private refCounts + per-RPC selector generation and interceptor liveness; distinct states are the non-trivial cases")
+	r.Assume(P, "events are serialized (one at a time, run to quiescence): the interleavings of SelectConfig, OnCommitted and updates inside the resolver are explored by leg c51_resolver_sched, not here; RPCs are selected through the config selector of the latest push (the channel swaps selectors before the resolver stops the old one)")
+	r.Assume(P, "scripted: xDS client (decoded Listener/Cluster/Endpoints resources delivered directly to the dependency manager's watchers; every cluster resolves; cluster specifier plugins appear as the decoded RouteConfigUpdate.ClusterSpecifierPlugins entry a stub plugin would produce), the weighted-cluster picker (seam rinternal.NewWRR: always the first listed cluster) and the channel (recording ClientConn; the cluster_manager LB policy and the real channel's commit logic in stream.go are not running)")
+	r.Assume(P, "resource error: when the Listener resource is removed the resolver deliberately gives the channel an empty service config and no routing selector at once, even with uncommitted RPCs (the repository's TestResolverRemovedWithRPCs asserts this); clause (a)'s 'stays until committed' is therefore judged for route-configuration changes only and suspended while the resource is in error; what IS judged in that state: no routing selector is delivered, no stale children without uncommitted RPCs, refCount ledger, and everything again after a new route configuration arrives")
 
 	contents, err := bootstrap.NewContentsForTesting(bootstrap.ConfigOptionsForTesting{
 		Servers: []byte(`[{"server_uri": "passthrough:///verif", "channel_creds": [{"type": "insecure"}]}]`),
@@ -704,14 +924,16 @@ func TestVerif_C51_XDSResolver(t *testing.T) {
 		return
 	}
 	defer c51InstallWRR()()
-	ops := c51Ops()
-	names := make([]string, len(ops))
-	for i, o := range ops {
-		names[i] = o.name
+	for _, scenario := range []string{"clusters", "plugins"} {
+		ops := c51Ops(scenario)
+		names := make([]string, len(ops))
+		for i, o := range ops {
+			names[i] = o.name
+		}
+		seqx.BFS(r, []string{P}, seqx.Config{
+			Name: "xdsresolver-" + scenario, Ops: names, MaxDepth: r.Pick(6, 8), Parallel: 16,
+			Congruence: r.Thorough(), CongruenceMax: 200, MinStates: 30,
+			Run: func(hist []int) seqx.Outcome { return c51Run(t, bc, ops, hist) },
+		})
 	}
-	seqx.BFS(r, []string{P}, seqx.Config{
-		Name: "xdsresolver", Ops: names, MaxDepth: r.Pick(6, 8), Parallel: 16,
-		Congruence: r.Thorough(), CongruenceMax: 200, MinStates: 30,
-		Run: func(hist []int) seqx.Outcome { return c51Run(t, bc, ops, hist) },
-	})
 }
